@@ -174,7 +174,7 @@ func init() {
 			m.EAttr(m.EAttr(h("a", h("b", m.ENum(1))), "a"), "b"), h("a", h("b", h("c", m.ENum(1)))), m.EArr(h("a", h()), h()),
 		}
 		// attribute names that are also operator words
-		for _, w := range []string{"in", "is", "not", "and", "or", "matches"} {
+		for _, w := range []string{"in", "is", "not", "and", "or", "matches", "none", "null", "true", "false"} {
 			hw := &m.E{K: "hash", KS: []*m.E{m.EStr(w)}, A: []*m.E{m.EStr("v-" + w)}}
 			forms = append(forms, m.EAttr(hw, w), m.EBin("~", m.EAttr(hw, w), m.EStr("!")), m.EBin("in", m.EAttr(hw, w), m.EArr(m.EStr("v-"+w))))
 		}
